@@ -327,6 +327,13 @@ func scenarios() []scenario {
 			osw.SetODTemplate(w, "d", osw.Template(osw.OnePhase("a", "c"), 2))
 			return w
 		}, DriftTargets: testObjects},
+		{Name: "S8 ObjectDeployment T1{a} -> T2{a,c} (complete takeover: the old revision controls nothing when archived)", Init: func() *world.World {
+			w := osw.NewWorld()
+			w.MustCreate(osw.NewOD("d", osw.Template(osw.OnePhase("a"), 1), nil))
+			settle(w)
+			osw.SetODTemplate(w, "d", osw.Template(osw.OnePhase("a", "c"), 2))
+			return w
+		}, DriftTargets: testObjects},
 		{Name: "S3 ObjectDeployment T1 -> T2 with a delegated phase", Init: func() *world.World {
 			w := osw.NewWorld()
 			t1 := osw.OnePhase("a", "b")
